@@ -223,3 +223,22 @@ func VerifHarness_C05_MonitoredReload() {
 	verifReach("searched")
 	verifReach("done")
 }
+
+// two requests for one query whose integer options differ in several fields at once (keys must
+// keep the fields apart, not just their concatenated digits)
+func VerifHarness_C05_KeyGrid() {
+	cdb := NewCachedDatabase(c04DB(false))
+	pick := func() SearchOptions {
+		return SearchOptions{
+			Limit:          []int{1, 10, 101}[verifIntRange("limit", 0, 2)],
+			FuzzyThreshold: []int{0, 1, -30}[verifIntRange("threshold", 0, 2)],
+			TopTermsCap:    []int{0, 2, 12}[verifIntRange("termsCap", 0, 2)],
+			UseFuzzy:       true,
+		}
+	}
+	o1, o2 := pick(), pick()
+	c05Compare(cdb.Database, cdb.SearchWithOptionsAndCache("aa", o1), "aa", o1, "first request")
+	c05Compare(cdb.Database, cdb.SearchWithOptionsAndCache("aa", o2), "aa", o2, "second request, other integer options")
+	verifReach("searched")
+	verifReach("done")
+}
